@@ -928,6 +928,8 @@ pub struct DirDiff {
     pub missing: Vec<String>,
     pub extra: Vec<String>,
     pub needed: Vec<String>,
+    /// refined classes of the extra files (e.g. "manifest-newer", "wal-older", "table")
+    pub extra_kinds: BTreeSet<String>,
 }
 
 impl DirDiff {
@@ -942,7 +944,7 @@ impl DirDiff {
         Self::classes(&self.missing)
     }
     pub fn extra_classes(&self) -> String {
-        Self::classes(&self.extra)
+        self.extra_kinds.iter().cloned().collect::<Vec<_>>().join("+")
     }
 }
 
@@ -957,6 +959,7 @@ pub fn dir_diff(fs: &SimFs, shape: &VerifShape) -> Option<DirDiff> {
     let mut needed: BTreeSet<String> = BTreeSet::new();
     let mut have: BTreeSet<String> = BTreeSet::new();
     let mut extra = vec![];
+    let mut extra_kinds: BTreeSet<String> = BTreeSet::new();
     let current_tables: BTreeSet<u64> = shape.files.iter().map(|f| f.number).collect();
     let mut seen_tables: BTreeSet<u64> = BTreeSet::new();
     let mut seen_wals: BTreeSet<u64> = BTreeSet::new();
@@ -973,6 +976,7 @@ pub fn dir_diff(fs: &SimFs, shape: &VerifShape) -> Option<DirDiff> {
                 if file_number(&base) == Some(shape.manifest_number) {
                     seen_manifest = true;
                 } else {
+                    extra_kinds.insert(if file_number(&base).unwrap_or(0) > shape.manifest_number { "manifest-newer".into() } else { "manifest-older".into() });
                     extra.push(name);
                 }
             }
@@ -980,15 +984,24 @@ pub fn dir_diff(fs: &SimFs, shape: &VerifShape) -> Option<DirDiff> {
                 Some(n) if n == shape.active_wal_number => {
                     seen_wals.insert(n);
                 }
-                _ => extra.push(name),
+                n => {
+                    extra_kinds.insert(if n.unwrap_or(0) > shape.active_wal_number { "wal-newer".into() } else { "wal-older".into() });
+                    extra.push(name)
+                }
             },
             FileClass::Table => match file_number(&base) {
                 Some(n) if current_tables.contains(&n) => {
                     seen_tables.insert(n);
                 }
-                _ => extra.push(name),
+                _ => {
+                    extra_kinds.insert("table".into());
+                    extra.push(name)
+                }
             },
-            FileClass::Temp | FileClass::Other | FileClass::Dir => extra.push(name),
+            c @ (FileClass::Temp | FileClass::Other | FileClass::Dir) => {
+                extra_kinds.insert(crate::exec::class_name(c).to_string());
+                extra.push(name)
+            }
         }
     }
     let mut missing = vec![];
@@ -1012,7 +1025,7 @@ pub fn dir_diff(fs: &SimFs, shape: &VerifShape) -> Option<DirDiff> {
     if missing.is_empty() && extra.is_empty() {
         None
     } else {
-        Some(DirDiff { missing, extra, needed: needed.into_iter().collect() })
+        Some(DirDiff { missing, extra, needed: needed.into_iter().collect(), extra_kinds })
     }
 }
 
